@@ -182,6 +182,8 @@ pub struct DeviceStats {
     pub uploads: Vec<(u16, u8)>,
     /// How each served upload was answered: 0 expedited, 1 normal, 2 segmented (+ complete flag 0x10)
     pub upload_kinds: Vec<u8>,
+    /// Content of the out mailbox for each reply placed in it (first 64)
+    pub replies_served: Vec<Vec<u8>>,
     pub mailbox_counters: Vec<u8>,
     pub station_addr_writes: Vec<u16>,
     pub dc_sync_writes: u32,
@@ -212,6 +214,10 @@ pub struct Device {
     pub endless: Option<Vec<u8>>,
     /// Device is unplugged: it neither sees nor answers any datagram
     pub absent: bool,
+    /// The system time register answers this value (C18: chosen reference times)
+    pub sys_time_force: Option<u64>,
+    /// Every write that touched 0x0980..0x09b0 (address, data)
+    pub dc_sync_log: Vec<(usize, Vec<u8>)>,
     endless_armed: bool,
     /// Forced AL status bytes: each read of the AL status register is served the next one instead
     /// of the register content (C10: every combination of reported states)
@@ -363,6 +369,8 @@ impl Device {
             segmented: None,
             scripted_replies: Default::default(),
             absent: false,
+            sys_time_force: None,
+            dc_sync_log: Vec::new(),
             endless_armed: false,
             scripted: None,
             endless: None,
@@ -471,7 +479,7 @@ impl Device {
         }
 
         if self.spec.dc != DcKind::None && addr < R_DC_SYSTIME + 8 && R_DC_SYSTIME < addr + len {
-            let t = self.local_time(now);
+            let t = self.sys_time_force.unwrap_or_else(|| self.local_time(now));
 
             self.mem[R_DC_SYSTIME..R_DC_SYSTIME + 8].copy_from_slice(&t.to_le_bytes());
         }
@@ -517,6 +525,11 @@ impl Device {
 
         if len == 0 {
             return true;
+        }
+
+        // attempts count too (a device without DC does not have these registers)
+        if addr < 0x09b0 && 0x0980 < addr + len {
+            self.dc_sync_log.push((addr, data.to_vec()));
         }
 
         if addr + len > MEM || !self.exists(addr) {
@@ -906,6 +919,10 @@ impl Device {
 
                 for i in 0..n {
                     self.mem[a + i] = *reply.get(i).unwrap_or(&0);
+                }
+
+                if self.stats.replies_served.len() < 64 {
+                    self.stats.replies_served.push(self.mem[a..a + n].to_vec());
                 }
 
                 self.mbx.out_full = true;
